@@ -186,20 +186,21 @@ def rand_adf(rng, n, depth, quoted=0.1, locality=None):
 
 def rand_adf_colliding(rng, n):
     """quoted labels that contain the separator characters of the text format next to their own parts as labels: a, b, c, "a,b", "b,c", ...
-    (two different formulas can then have the same rendering without quotes)"""
-    base = ['a', 'b', 'c', 'd'][:max(2, min(4, n // 2))]
-    names = list(base)
-    for x in base:
-        for y in base:
-            if len(names) < n and x != y and '%s,%s' % (x, y) not in names: names.append('%s,%s' % (x, y))
+    (two different formulas then have the same rendering once the quotes are dropped); always at least 6 statements"""
+    names = ['a', 'b', 'c', 'a,b', 'b,c', 'd'] + ['c,a', 'a,b,c', 'b,a', 'd,a'][:max(0, n - 6)]
     while len(names) < n: names.append('v%d' % len(names))
     acs = {}
     for nm in names:
-        x, y, z = rng.sample(names, 3) if len(names) >= 3 else (names[0], names[-1], names[0])
-        acs[nm] = rng.choice([(rng.choice(['and', 'or']), ('atom', x), ('atom', y)), ('and', ('atom', x), ('or', ('atom', y), ('atom', z))), ('neg', ('atom', x)), ('atom', x)])
-    # one guaranteed colliding pair
-    if 'a,b' in names and 'b,c' in names and len(names) >= 5:
-        acs[names[0]] = ('and', ('atom', 'a,b'), ('atom', 'c')); acs[names[1]] = ('and', ('atom', 'a'), ('atom', 'b,c'))
+        x, y, z = rng.sample(names, 3)
+        acs[nm] = rng.choice([(rng.choice(['and', 'or']), ('atom', x), ('atom', y)), ('and', ('atom', x), ('or', ('atom', y), ('atom', z))), ('neg', ('atom', x)), ('atom', x), ('top',), ('bot',)])
+    # one guaranteed pair: and("a,b",c) and and(a,"b,c") print alike without quotes but differ; their four arguments are
+    # self-supporting statements, so that the difference shows in the models
+    for x in ('a', 'c', 'a,b', 'b,c'): acs[x] = ('atom', x)
+    rest = [x for x in names if x not in ('a', 'c', 'a,b', 'b,c')]
+    p, q = (rest + rest)[:2] if len(rest) >= 2 else (rest[0], rest[0])
+    op = rng.choice(['and', 'or'])
+    acs[p] = (op, ('atom', 'a,b'), ('atom', 'c'))
+    if q != p: acs[q] = (op, ('atom', 'a'), ('atom', 'b,c'))
     return names, acs
 
 
